@@ -105,19 +105,30 @@ theorem ciRecord_ok {R B : Nat} (o : Oracle) {sub tok skip : IS → Out LoopRes}
     · obtain ⟨r, a, b, c⟩ := ciFail_ok hs rs.s (st + rs.steps) (by omega)
       exact ⟨r, a, by omega, by omega⟩
   · split
-    · have hg := get_m_le s3
-      have hpg := pot_mono (R := R) hg
-      obtain ⟨k1, _, _⟩ := readStdKeyword_m (s3.get).1
-      have kp := readStdKeyword_pot R (s3.get).1
-      obtain ⟨r, a, b, c⟩ := ciFail_ok hs (readStdKeyword (s3.get).1).1 (st + (readStdKeyword (s3.get).1).2.length) (by omega)
+    · have hgp := get_putback_m s3 chAmp
+      have hgp' : ((s3.get).1.putback chAmp).m ≤ s3.m := by
+        have h2 := putback_m (s3.get).1 chAmp
+        have h3 := get_m s3
+        rcases h3 with hh | hh
+        · omega
+        · have := putback_m_zero (s3.get).1 chAmp hh; omega
+      have hpp := pot_mono (R := R) hgp'
+      obtain ⟨r, a, b, c⟩ := ciFail_ok hs ((s3.get).1.putback chAmp) (st + 1) (by omega)
       exact ⟨r, a, by omega, by omega⟩
-    · obtain ⟨k1, _, _⟩ := readStdKeyword_m s3
-      have kp := readStdKeyword_pot R s3
-      split
-      · obtain ⟨r, a, b, c⟩ := ciDone_ok ht hs (readStdKeyword s3).1 (st + (readStdKeyword s3).2.length) (by omega)
+    · split
+      · have hg := get_m_le s3
+        have hpg := pot_mono (R := R) hg
+        obtain ⟨k1, _, _⟩ := readStdKeyword_m (s3.get).1
+        have kp := readStdKeyword_pot R (s3.get).1
+        obtain ⟨r, a, b, c⟩ := ciFail_ok hs (readStdKeyword (s3.get).1).1 (st + (readStdKeyword (s3.get).1).2.length) (by omega)
         exact ⟨r, a, by omega, by omega⟩
-      · obtain ⟨r, a, b, c⟩ := ciFail_ok hs (readStdKeyword s3).1 (st + (readStdKeyword s3).2.length) (by omega)
-        exact ⟨r, a, by omega, by omega⟩
+      · obtain ⟨k1, _, _⟩ := readStdKeyword_m s3
+        have kp := readStdKeyword_pot R s3
+        split
+        · obtain ⟨r, a, b, c⟩ := ciDone_ok ht hs (readStdKeyword s3).1 (st + (readStdKeyword s3).2.length) (by omega)
+          exact ⟨r, a, by omega, by omega⟩
+        · obtain ⟨r, a, b, c⟩ := ciFail_ok hs (readStdKeyword s3).1 (st + (readStdKeyword s3).2.length) (by omega)
+          exact ⟨r, a, by omega, by omega⟩
 
 /-- the `CreateInstance` skeleton is a stage with constant 15, whatever the oracle answers -/
 theorem createInstanceSkel_ok {R B : Nat} (o : Oracle) {sub tok skip : IS → Out LoopRes}
